@@ -4,6 +4,7 @@ import Swim.Drv.C10
 import Swim.Drv.Merge
 import Swim.Drv.Codec
 import Swim.Drv.Ingest
+import Swim.Drv.C06
 /-! Line-protocol driver: `<PROP> <kind> k=v ...` in, `<PROP> <id> <agree|DISAGREE> <ok|BAD:..> ...` out. -/
 open Swim.Parse
 
@@ -22,6 +23,7 @@ def dispatch (line : String) : String :=
       | "C14" => Swim.Drv.Ingest.handleC14 kind fs
       | "C16" => Swim.Drv.Codec.handleC16 kind fs
       | "C01" | "C02" | "C07" | "C08" | "C18" => Swim.Drv.Merge.handle prop kind fs
+      | "C06" => if kind == "susp" then Swim.Drv.C06.handleSusp fs else Swim.Drv.Merge.handle prop kind fs
       | _ => "PARSE prop"
     s!"{prop} {id} {body}"
   | _ => "? ? PARSE line"
